@@ -354,7 +354,8 @@ impl<'a> Walk<'a> {
         F: Fn(Path) + Sync + Send,
         's: 'w,
     {
-        if level > self.depth {
+        // the input paths are at level 0; `depth` is the number of directory levels to descend
+        if level >= self.depth {
             return;
         }
         if !self.path_selector.matches_dir(&path) {
